@@ -86,7 +86,8 @@ func main() {
 	searched := 0
 	if tieBroken && len(rep.OFail) == 0 {
 		// search phase: wider generators, several seeds, oracle only
-		for s := uint64(1); s <= 3 && len(rep.OFail) == 0; s++ {
+		tSearch := time.Now()
+		for s := uint64(1); s <= 3 && len(rep.OFail) == 0 && (s == 1 || time.Since(tSearch) < 3*time.Minute); s++ {
 			e2 := mk(*seed*1000+s, true)
 			if err := run(e2); err != nil {
 				break
